@@ -105,7 +105,7 @@ WDen == 16777216                   \* weights are shipped in 2^-24 ths
 WUnits == 256                      \* 1.5e-5: float32 division noise (measured 1.2e-7) x 100
 
 RelSlack(m) == AbsI(m) \div RelDen + 1
-AccSlack(k, m) == (k * (AbsI(m) \div 4096)) \div 1024 + k + 2          \* k * m / 2^22 + k + 2
+AccSlack(k, m) == (k * (AbsI(m) \div 4096)) \div (2^(AccShift - 12)) + k + 2    \* k * m / 2^22 + k + 2
 TSlack(j) == 1 + (j + 1) \div TSlackDiv
 
 LerpLo(pr) == LET ts == TSlack(pr[1]) IN MinI(LerpAt(pr, pr[2] - ts), LerpAt(pr, pr[2] + ts)) - 1
